@@ -72,7 +72,7 @@ class CG:
 
     def sccs(self, edges=None):
         """Tarjan over strong edges; returns list of lists of fn ids (only cyclic components)"""
-        edges = edges or self.strong
+        edges = self.strong if edges is None else edges
         index = {}
         low = {}
         onstack = set()
